@@ -113,6 +113,9 @@ struct Translator {
     acked: Vec<bool>,
     cancelled: Vec<bool>,
     slot_direct: Vec<bool>,
+    clone_uuid: HashMap<Uuid, usize>,
+    registered: HashSet<usize>,
+    root_cmd_id: Option<Uuid>,
     // per actor
     pub_id: Vec<Option<usize>>,
     await_snap: Vec<bool>,
@@ -140,7 +143,7 @@ impl Translator {
     fn new(n_actors: usize) -> Self {
         Translator {
             trace: vec![], slot_of: HashMap::new(), pending_subs: VecDeque::new(), n_slots: 0, n_pubs: 1, rootq_len: 0,
-            root_cur: Cur::None, root_terminated: false, root_dropped: false, acked: vec![], cancelled: vec![], slot_direct: vec![],
+            root_cur: Cur::None, root_terminated: false, root_dropped: false, acked: vec![], cancelled: vec![], slot_direct: vec![], clone_uuid: HashMap::new(), registered: HashSet::new(), root_cmd_id: None,
             pub_id: vec![None; n_actors], await_snap: vec![false; n_actors], pending_deliver: vec![None; n_actors],
             clone_cur: vec![None; n_actors], clone_closed: vec![false; n_actors], link_cur: vec![(false, false); n_actors],
             cur_slot: vec![None; n_actors], terminated_pubs: vec![], subs: vec![], upds: vec![], tick: 0, bad: vec![],
@@ -151,7 +154,14 @@ impl Translator {
     fn root_complete(&mut self) {
         match std::mem::replace(&mut self.root_cur, Cur::None) {
             Cur::Responding(s) => { self.emit("rr".into()); if !self.cancelled[s] { self.acked[s] = true; } }
-            Cur::Cmd(c) => { self.emit(format!("rp.{}", tag(c))); self.rootq_len -= 1; if c == "cmd.terminate" { self.root_terminated = true; } }
+            Cur::Cmd(c) => {
+                self.emit(format!("rp.{}", tag(c))); self.rootq_len -= 1;
+                if c == "cmd.terminate" { self.root_terminated = true; }
+                if let Some(p) = self.root_cmd_id.and_then(|u| self.clone_uuid.get(&u).copied()) {
+                    if c == "cmd.attach_clone" { self.registered.insert(p); }
+                    if c == "cmd.detach_clone" { self.registered.remove(&p); }
+                }
+            }
             _ => {}
         }
     }
@@ -167,7 +177,7 @@ impl Translator {
     /// An event tap inside comms.rs fired on actor `a` (actor 0 = root gate's process loop).
     fn on_hook(&mut self, a: usize, name: &'static str, id: Option<Uuid>) {
         if name.starts_with("cmd.") {
-            if a == 0 { self.root_complete(); self.root_cur = Cur::Cmd(name); }
+            if a == 0 { self.root_complete(); self.root_cur = Cur::Cmd(name); self.root_cmd_id = id; }
             else { self.clone_complete(a); self.clone_cur[a] = Some(name); }
             return;
         }
@@ -360,7 +370,7 @@ async fn pub_actor(sh: &Shared, a: usize, is_root: bool, ops: &[POp], gate_slot:
                     if !set.remove(&cid) { sh.sched.with(|t| t.bad.push("attach-not-sent".into())); }
                 }
                 *gate_slot = Some(g);
-                sh.sched.pause(a, |t| { let c = t.n_pubs; t.n_pubs += 1; t.pub_id[a] = Some(c); t.emit(format!("cn.{c}")); t.rootq_len += 1; });
+                sh.sched.pause(a, |t| { let c = t.n_pubs; t.n_pubs += 1; t.pub_id[a] = Some(c); t.clone_uuid.insert(cid, c); t.emit(format!("cn.{c}")); t.rootq_len += 1; });
             }
             POp::Update => {
                 let p = match sh.sched.with(|t| t.pub_id[a]) { Some(p) => p, None => continue };
@@ -707,6 +717,9 @@ fn run_case(sc: &Script, forced: &[usize], rng: &mut Rng) -> CaseResult {
     }
     let subs = tr.subs.clone();
     let root_terminated = tr.root_terminated;
+    let clone_ids = tr.clone_uuid.clone();
+    let registered = tr.registered.clone();
+    let terminated_pubs = tr.terminated_pubs.clone();
     let trace = tr.trace.clone();
     let n_delivered: usize = subs.iter().map(|s| s.received.len()).sum();
     let mut stats = vec![];
@@ -727,10 +740,20 @@ fn run_case(sc: &Script, forced: &[usize], rng: &mut Rng) -> CaseResult {
     drop(g);
 
     // ---- teardown = the upstream goes away: everybody must observe it
-    drop(root_arc);
     let mut clones: Vec<Gate> = vec![];
     let mut links: Vec<LinkObj> = vec![];
     for o in outs { if let Some(gt) = o.gate { clones.push(gt); } links.extend(o.links); }
+    if root_terminated && root_arc.is_some() {
+        // the root handled Terminate and still exists: every clone it had registered must be told
+        for gt in &clones {
+            let Some(p) = vg::gate_clone_id(gt).and_then(|u| clone_ids.get(&u).copied()) else { continue };
+            if !registered.contains(&p) || terminated_pubs.contains(&p) { continue; }
+            let mut ok = false;
+            for _ in 0..64 { match gt.process().now_or_never() { Some(Err(Terminated)) => { ok = true; break; } Some(Ok(_)) => continue, None => break } }
+            if !ok { fails.push(format!("termination:registered-clone-not-notified pub={p}")); }
+        }
+    }
+    drop(root_arc);
     for gt in &clones {
         let mut ok = false;
         for _ in 0..64 { if let Some(Err(Terminated)) = gt.process().now_or_never() { ok = true; break; } }
@@ -756,7 +779,6 @@ fn run_case(sc: &Script, forced: &[usize], rng: &mut Rng) -> CaseResult {
         if let Some(d) = lo.d.as_mut() { let _ = d.disconnect().now_or_never(); }
     }
     drop(links);
-    let _ = root_terminated;
 
     fails.sort(); fails.dedup();
     let oracle = if fails.is_empty() { "ok".to_string() } else {
